@@ -425,6 +425,9 @@ func (r *runner) run() (valid bool) {
 	for i, e := range r.c.Ev {
 		switch e.Op {
 		case "recv":
+			if r.hang.Load() {
+				continue // taking a message could release a loop that is stuck on a full queue
+			}
 			r.recv(e.C, false)
 		case "bump":
 			// environment: the graph's model version moves (the loop reads it on its next tick; the
